@@ -11,6 +11,7 @@ import (
 	"os"
 	"path/filepath"
 	"strings"
+	"sync"
 	"time"
 
 	dss "github.com/ahimsalabs/durable-streams-go/durablestream"
@@ -395,6 +396,56 @@ func storeDomain(lines []string) []string {
 				end = "err"
 			}
 			out = append(out, fmt.Sprintf("replay end=%s recs=%s appends=%d handlers=%d", end, rs, appends, handlerCalls))
+		case "raceappend":
+			// concurrent appenders on one store: afterwards the log must hold every event once, with
+			// offsets strictly increasing in log order (compared as the store documents: numerically for sqlite)
+			g, n := atoi(f[1]), atoi(f[2])
+			var wg sync.WaitGroup
+			var mu sync.Mutex
+			errs := 0
+			for i := 0; i < g; i++ {
+				wg.Add(1)
+				go func(i int) {
+					defer wg.Done()
+					for k := 0; k < n; k++ {
+						off, err := sc.cur.st.Append(ctx, mkEvent(100000+i*1000+k, sc.cur.padded))
+						mu.Lock()
+						if err != nil {
+							errs++
+						} else {
+							sc.cur.appOffs = append(sc.cur.appOffs, string(off))
+						}
+						mu.Unlock()
+					}
+				}(i)
+			}
+			wg.Wait()
+			if sc.kind == "ds" {
+				out = append(out, "raceappend ok") // read-back over chunks is the known finding's territory
+				continue
+			}
+			evs, _, err := sc.cur.st.Read(ctx, eb.OffsetOldest, 0)
+			verdict := "raceappend ok"
+			if err != nil || errs > 0 {
+				verdict = fmt.Sprintf("!raceappend errors=%d read=%v", errs, err)
+			} else {
+				seen := map[string]bool{}
+				prev := ""
+				for _, e := range evs {
+					o := string(e.Offset)
+					less := prev < o
+					if sc.kind == "sqlite" {
+						less = atoi(prev) < atoi(o)
+					}
+					if seen[o] || (prev != "" && !less) {
+						verdict = fmt.Sprintf("!raceappend log not in strictly increasing offset order: %q then %q", prev, o)
+						break
+					}
+					seen[o] = true
+					prev = o
+				}
+			}
+			out = append(out, verdict)
 		default:
 			out = append(out, "bad-op "+line)
 		}
